@@ -272,6 +272,21 @@ func cmdRun(args []string) int {
 				continue
 			}
 		}
+		if v.Known != "" && code == 1 {
+			// the scenario of a known finding also shows, on this tree, a violation that
+			// is not listed (reproduced in the fresh process): report that one
+			v.Known = ""
+			if i := strings.Index(out, "REPLAY-VIOLATION property="); i >= 0 {
+				for _, f := range strings.Fields(out[i:]) {
+					if strings.HasPrefix(f, "class=") {
+						v.Class = strings.TrimPrefix(f, "class=")
+						break
+					}
+				}
+			}
+			unlisted = append(unlisted, v)
+			continue
+		}
 		if code != want {
 			fmt.Fprintf(os.Stderr, "simcheck: harness determinism trouble: minimised replay %s did not reproduce in a fresh process (exit %d)\n%s\n", v.Replay, code, clipStr(out, 3000))
 			return 2
